@@ -1156,12 +1156,19 @@ func (c *inlCtx) tryCall(st ast.Stmt, call *ast.CallExpr, kind callKind, as *ast
 				}
 			}
 			if len(rhs) == len(targets) {
-				var lhs []ast.Expr
-				for _, t := range targets {
+				var lhs, keep []ast.Expr
+				for i, t := range targets {
+					// `_ = nil` does not type-check: an untyped nil handed to a blank target is dropped
+					if id, isId := ast.Unparen(rhs[i]).(*ast.Ident); isId && id.Name == "nil" && t == "_" {
+						continue
+					}
 					lhs = append(lhs, ast.NewIdent(t))
+					keep = append(keep, rhs[i])
 				}
 				_ = allBlank
-				out = append(out, &ast.AssignStmt{Lhs: lhs, Tok: token.ASSIGN, Rhs: rhs})
+				if len(lhs) > 0 {
+					out = append(out, &ast.AssignStmt{Lhs: lhs, Tok: token.ASSIGN, Rhs: keep})
+				}
 			} else if len(rhs) == 1 {
 				// return f() forwarding several results
 				var lhs []ast.Expr
